@@ -27,6 +27,9 @@ CL = [
  ("ibm_db2","organize_by_column","ORGANIZE BY COLUMN"), ("postgres","inherits_q","INHERITS (s2.base2)"), ("redshift","diststyle_all","DISTSTYLE ALL"), ("redshift","diststyle_even","DISTSTYLE EVEN"),
  ("hql","stored_as_textfile","STORED AS TEXTFILE"), ("mysql","engine_myisam","ENGINE=MyISAM"), ("mysql","charset_latin1","DEFAULT CHARSET=latin1"), ("oracle","tablespace_mixed","TABLESPACE Users_Data"),
  ("hql","location_hdfs","LOCATION 'hdfs://nn:8020/warehouse/t1'"), ("snowflake","cluster_by_b","CLUSTER BY (b)"),
+ ("hql","fields_term_semi","FIELDS TERMINATED BY ';'"), ("hql","fields_term_tab","FIELDS TERMINATED BY '\t'"), ("hql","lines_term_semi","LINES TERMINATED BY ';'"),
+ ("hql","map_keys_tab","MAP KEYS TERMINATED BY '\t'"), ("hql","collection_items_semi","COLLECTION ITEMS TERMINATED BY ';'"), ("hql","location_semi","LOCATION 's3://b/p;v1'"),
+ ("snowflake","comment_semi","COMMENT = 'a; b'"), ("hql","tblproperties_semi","TBLPROPERTIES ('k;1'='v;1')"), ("hql","fields_term_pipe","FIELDS TERMINATED BY '|'"),
  ("ibm_db2","in","IN ts1"), ("ibm_db2","index_in","INDEX IN ts2"), ("ibm_db2","organize_by","ORGANIZE BY ROW"),
 ]
 base = {}
